@@ -687,10 +687,10 @@ func (e *SpecEnv) evalCall(n *SCall) Value {
 		return Sc{u.mapDom(e.st.View(), m.Typ, m.T), nil}
 	case "fresh":
 		if sl, ok := e.eval(n.Args[0]).(SliceV); ok {
-			return Sc{And(Neq(sl.Arr, TNil), Cmp(">=", app("objof", SInt, sl.Arr), e.old.allocTerm())), tb}
+			return Sc{And(Neq(sl.Arr, TNil), Cmp(">=", app("objof", SInt, sl.Arr), e.old.allocTerm()), Cmp("<", app("objof", SInt, sl.Arr), e.st.allocTerm())), tb}
 		}
 		s := e.scalar(n.Args[0])
-		return Sc{And(Neq(s.T, TNil), Cmp(">=", app("objof", SInt, s.T), e.old.allocTerm())), tb}
+		return Sc{And(Neq(s.T, TNil), Cmp(">=", app("objof", SInt, s.T), e.old.allocTerm()), Cmp("<", app("objof", SInt, s.T), e.st.allocTerm())), tb}
 	case "allocated":
 		s := e.scalar(n.Args[0])
 		return Sc{Cmp("<", app("objof", SInt, s.T), e.st.allocTerm()), tb}
